@@ -26,13 +26,28 @@ CFGS = (Cfg("sync", True, False, "direct"), Cfg("sync", False, False, "direct"),
         Cfg("sync", True, True, "direct"))
 VALUES = ("s0", 0, "")     # s0 keeps the default value (its id), s1 -> 0, s2 -> ""
 
+
+class Phase(__import__("enum").Enum):
+    """State values that are enum *members* (objects with a `.value` of their own)."""
+    draft = 1
+    review = 0
+    done = ""
+
+
+VALUES_ENUM = (Phase.draft, Phase.review, Phase.done)
+ALPHA = {"plain": VALUES, "enum": VALUES_ENUM, "swrapped": VALUES}
+
 _B = {}
 
 
-def machine(asyn):
+def machine(asyn, alpha="plain"):
     fl = "a" if asyn else ""
-    states = (S("s0", initial=True, enter=("ie0",)), S("s1", value=0, enter=("ie1",)),
-              S("s2", value=""))
+    if alpha == "enum":
+        states = (S("s0", initial=True, value=Phase.draft, enter=("ie0",)),
+                  S("s1", value=Phase.review, enter=("ie1",)), S("s2", value=Phase.done))
+    else:
+        states = (S("s0", initial=True, enter=("ie0",)), S("s1", value=0, enter=("ie1",)),
+                  S("s2", value=""))
     trans = []
     for i in range(3):
         trans.append(T(f"s{i}", f"s{(i + 1) % 3}", ("a",)))
@@ -46,13 +61,20 @@ def machine(asyn):
         prov.append(("sm", nm, fl))
     prov.append(("L1", "on_enter_s1", fl))
     prov.append(("model", "ie0", fl))
+    if alpha == "swrapped":
+        # all plain functions; some are functools.wraps wrappers around an `async def`
+        # (async-to-sync adapters): still plain functions, the machine runs on the sync engine
+        # and is activated by its constructor
+        prov = [(p, n, "S" if (p, n) in (("sm", "ie0"), ("L1", "on_enter_s1"),
+                                         ("sm", "on_enter_state")) else f)
+                for (p, n, f) in prov]
     return M(states=states, trans=tuple(trans), provided=tuple(prov), listeners=("L1",))
 
 
-def built_for(asyn):
-    if asyn not in _B:
-        _B[asyn] = build(machine(asyn))
-    return _B[asyn]
+def built_for(asyn, alpha="plain"):
+    if (asyn, alpha) not in _B:
+        _B[(asyn, alpha)] = build(machine(asyn, alpha))
+    return _B[(asyn, alpha)]
 
 
 RULES = (
@@ -64,9 +86,10 @@ RULES = (
 OPS = ("a", "b", "activate", "re", "re-sv1", "re-sv2", "old-a")
 
 
-def run_history(cfg, stored_i, sv_i, rules_i, hist):
+def run_history(cfg, stored_i, sv_i, rules_i, hist, alpha="plain"):
     """stored_i / sv_i: None or index into VALUES. Returns message|None and op count."""
-    built = built_for(cfg.engine == "async")
+    VALUES = ALPHA[alpha]
+    built = built_for(cfg.engine == "async", alpha)
     plan = Plan(rules=dict(RULES[rules_i]))
     stored = None if stored_i is None else VALUES[stored_i]
     sv = None if sv_i is None else VALUES[sv_i]
@@ -130,7 +153,19 @@ def space(tier):
                 for ri in range(len(RULES)):
                     if ri and stored_i is not None:
                         continue
-                    out.append((ci, stored_i, sv_i, ri))
+                    out.append((ci, stored_i, sv_i, ri, "plain"))
+    # state values that are enum members (start_value and stored values are the members)
+    for ci in (0, 2, 3):
+        for stored_i in (None, 0, 1, 2):
+            for sv_i in (None, 0, 1, 2):
+                out.append((ci, stored_i, sv_i, 0, "enum"))
+    for ci in (0, 1):
+        for stored_i in (None, 1):
+            for sv_i in (None, 2):
+                for ri in (0, 1):
+                    if ri and stored_i is not None:
+                        continue
+                    out.append((ci, stored_i, sv_i, ri, "swrapped"))
     return out
 
 
@@ -138,13 +173,13 @@ def worker(block):
     tier, lo, hi, L = block
     res = BlockResult()
     hs = histories(L)
-    for (ci, stored_i, sv_i, ri) in space(tier)[lo:hi]:
+    for (ci, stored_i, sv_i, ri, alpha) in space(tier)[lo:hi]:
         cfg = CFGS[ci]
         for hist in hs:
             res.stats["evaluations"] += 1
             try:
                 with deadline(30):
-                    msg, steps = run_history(cfg, stored_i, sv_i, ri, hist)
+                    msg, steps = run_history(cfg, stored_i, sv_i, ri, hist, alpha)
             except Ambiguous:
                 res.stats["ambiguous_skipped"] += 1
                 continue
@@ -157,7 +192,7 @@ def worker(block):
                 res.violation({"category": _cat(msg), "engine": cfg.engine, "rtc": cfg.rtc,
                                "stored": stored_i is not None},
                               {"cfg_index": ci, "stored_i": stored_i, "sv_i": sv_i, "rules_i": ri,
-                               "history": list(hist)}, msg)
+                               "history": list(hist), "alpha": alpha}, msg)
             elif len(res.samples) < 1 and len(hist) == L and "re" in hist:
                 res.samples.append({"cfg": list(cfg), "stored": repr(None if stored_i is None
                                                                       else VALUES[stored_i]),
@@ -204,5 +239,5 @@ def run(tier, seed):
 
 def replay(sc):
     msg, _ = run_history(CFGS[sc["cfg_index"]], sc["stored_i"], sc["sv_i"], sc["rules_i"],
-                         sc["history"])
+                         sc["history"], sc.get("alpha", "plain"))
     return msg
